@@ -43,18 +43,18 @@ const (
 	// ("x:[S]y","z") and ("x","y:[S]z") get one key and are merged
 	// -> signature key_delimiter_collision. Avoided by never putting ':'
 	// directly before a marker "[S] [I] [F] [D] [B] [T] [N]" inside one cell.
-	avoidKnownDelimiterCollision = true
+	avoidKnownDelimiterCollision = false
 	// float zeros of different sign ('0.0' and '-0.0', 0.0 and -0.0) are equal
 	// values but get the keys "[F]0" and "[F]-0" -> signature
 	// negative_zero_split. Avoided by not generating negative float zeros.
-	avoidKnownNegativeZeroSplit = true
+	avoidKnownNegativeZeroSplit = false
 	// SELECT agg FROM t HAVING cond without GROUP BY over no rows: Having's
 	// filter evaluates nothing, so the view is never grouped and Select then
 	// adds the one empty group unfiltered: COUNT(*) = 0 is returned although
 	// HAVING COUNT(*) >= 1 -> signature having_ignored_on_empty_input.
 	// Avoided by not adding HAVING when there are no keys and no row passes
 	// the WHERE clause.
-	avoidKnownHavingOnEmptyInput = true
+	avoidKnownHavingOnEmptyInput = false
 )
 
 var markers = []string{"[S]", "[I]", "[F]", "[D]", "[B]", "[T]", "[N]"}
